@@ -10,6 +10,7 @@ PROPS_FILE = 'coq/Props/C19.v'
 RUN_MODULE = 'QCE.C19.Run'
 COQ_HEADER = 'From Gen Require Import Ident.'
 IMPL = 'harness/impl/c19_impl.py'
+REPEAT_REVERSED = True     # every case is evaluated twice per run, the second time in reversed order in the same processes
 SHARD = 400
 EXHAUSTIVE = True
 TRUSTED = ['Gen/Ident.v is regenerated from intrf_circuit_operation.py / intrf_channel_identifier.py on every run',
